@@ -646,7 +646,18 @@ def r4(ctx: Ctx):
   ps_ = ta.params()
   got_in = pat.search(ta.node, f'$f, $k = (self._get_inputs({ps_[2]}), {{}})') or pat.search(
       ta.node, f'$f = self._get_inputs({ps_[2]})')
-  if got_in and pat.has(ta.node, f'{ps_[1]} = self._actual_fn.update_state({ps_[1]}, *{got_in[0][1]["f"]}, **$kw)'):
+  aliases = set()
+  if got_in:
+    aliases.add(got_in[0][1]['f'])
+    for _ in range(2):       # `a = f` / `a, k = f, {}`: the selected inputs under another local name
+      for x in walk_no_nested(ta.node):
+        if isinstance(x, ast.Assign) and len(x.targets) == 1:
+          t_, v_ = x.targets[0], x.value
+          pairs = list(zip(t_.elts, v_.elts)) if isinstance(t_, ast.Tuple) and isinstance(v_, ast.Tuple) and len(t_.elts) == len(v_.elts) else [(t_, v_)]
+          for tt, vv in pairs:
+            if isinstance(tt, ast.Name) and isinstance(vv, ast.Name) and vv.id in aliases:
+              aliases.add(tt.id)
+  if got_in and any(pat.has(ta.node, f'{ps_[1]} = self._actual_fn.update_state({ps_[1]}, *{al}, **$kw)') for al in sorted(aliases)):
     ctx.ok(rule, ta, 'aggregate sees the (masked) selected inputs', ta.node)
   else:
     ctx.fail(rule, ta, 'TreeAggregateFn.update_state: _actual_fn.update_state(state, *self._get_inputs(inputs))',
@@ -1168,6 +1179,8 @@ from mlmverif.selfcheck import B, OK  # noqa: E402
 _T = 'chainables/transform.py'
 _F = 'chainables/tree_fns.py'
 VARIANTS = [
+    OK('aggregate-inputs-through-a-local', 'chainables/tree_fns.py',
+       "      fn_inputs, kw_inputs = self._get_inputs(inputs), {}\n      if self.input_argkeys:", "      selected = self._get_inputs(inputs)\n      fn_inputs, kw_inputs = selected, {}\n      if self.input_argkeys:"),
     B('keyword-bound-inputs-selected-beside-get-inputs', 'chainables/tree_fns.py',
       "      fn_inputs, kw_inputs = self._get_inputs(inputs), {}\n      if self.input_argkeys:\n        fn_inputs, kw_inputs = (), dict(zip(self.input_argkeys, fn_inputs))\n      state = self._actual_fn.update_state(",
       "      if self.input_argkeys:\n        selected = tree.TreeMapView.as_view(inputs)[self.input_keys]\n        fn_inputs, kw_inputs = (), dict(zip(self.input_argkeys, selected))\n      else:\n        fn_inputs, kw_inputs = self._get_inputs(inputs), {}\n      state = self._actual_fn.update_state(", 'R-C02-24'),
